@@ -54,10 +54,12 @@ Definition find_ip_without_zone (ix : index) (a : addr) : option uid :=
   | None => None
   end.
 
-(** client.Storage.FindLoose *)
+(** client.Storage.FindLoose: index.findByClientIDOrIP never reads the id as
+    a MAC address (the [mac] reading of a ClientID is carried by the case but
+    not used). *)
 Definition find_loose (ix : index) (dhcp : addr -> option bytes) (i : id) : option uid :=
   match i with
-  | IdCid raw mac => find ix raw None mac
+  | IdCid raw mac => find ix raw None None
   | IdAddr a =>
       match find_by_ip ix a with
       | Some u => Some u
@@ -69,10 +71,10 @@ Definition find_loose (ix : index) (dhcp : addr -> option bytes) (i : id) : opti
       end
   end.
 
-(** client.Storage.Find *)
+(** client.Storage.FindByClientIDOrIP *)
 Definition find_strict (ix : index) (dhcp : addr -> option bytes) (i : id) : option uid :=
   match i with
-  | IdCid raw mac => find ix raw None mac
+  | IdCid raw mac => find ix raw None None
   | IdAddr a =>
       match find_by_ip ix a with
       | Some u => Some u
